@@ -60,6 +60,10 @@ class C05(Property):
             {"kind": "tr", "n": 2, "scripts": [[[1, 1], [1, 0], [1, 0]], [[0, 0], [0, 1]]], "sched": [0, 0, 0, 1, 1, 2, 3, 4]},
             {"kind": "pl", "n": 1, "maxage": 100, "scripts": [[[0, 0], [1, 0], [2, 500], [0, 0], [1, 0]], [[0, 0], [1, 0]]], "sched": [0, 1, 0, 0, 0, 0]},
             {"kind": "pl", "n": 2, "maxage": 100, "scripts": [[[0, 0], [0, 0], [1, 0], [1, 0], [2, 150], [0, 0]], [[0, 0], [1, 0]]], "sched": [0, 0, 1, 0, 0, 0, 0, 1]},
+            # Get1 parked inside create() (pool lock held); Get2, Get3 invoked: they must block
+            {"kind": "pl", "n": 1, "maxage": 0, "scripts": [[[0, 0], [1, 0]], [[0, 0], [1, 0]], [[0, 0], [1, 0]]], "sched": [0, 1, 2, 0, 0, 1, 2]},
+            {"kind": "pl", "n": 2, "maxage": 0, "scripts": [[[0, 0], [1, 0]], [[0, 0]], [[0, 0], [1, 0]], [[1, 0], [0, 0]]], "sched": [0, 1, 2, 3, 0, 1, 1, 2, 0, 2]},
+            {"kind": "pl", "n": 3, "maxage": 100, "scripts": [[[0, 0]], [[0, 0]], [[0, 0]], [[0, 0]]], "sched": [0, 1, 2, 3, 0, 3, 2, 1]},
         ]
 
     def _enumerated(self):
@@ -146,17 +150,10 @@ class C05(Property):
             # actor was parked or blocked when the step began and only moves as a consequence of the
             # released actor's call, whose linearisation point therefore precedes their events; the
             # order in which the two goroutines reach the (shared) logger is a race, not an observation.
-            rel_get = case["kind"] == "pl" and any(e["a"] == s["a"] and e["k"] == "inv" and (e.get("v") or [9])[0] == 0
-                                                   for e in s["ev"])
-
-            def first(e):
-                if e["k"] in ("create", "destroy"):   # logged from inside Pool.Get, by whoever runs it
-                    return rel_get
-                return e["a"] == s["a"]
-            evs = [e for e in s["ev"] if first(e)] + [e for e in s["ev"] if not first(e)]
+            evs = [e for e in s["ev"] if e["a"] == s["a"]] + [e for e in s["ev"] if e["a"] != s["a"]]
             for e in evs:
                 k = EK[e["k"]]
-                if k in (0, 1, 2, 3) and e["a"] not in order:
+                if k in (0, 1, 2, 3, 5, 6) and e["a"] not in order:
                     order.append(e["a"])
                 v = (e.get("v") or [0])[0]
                 log.append([e["t"], e["a"], k, e["op"], v])
